@@ -18,7 +18,7 @@ import multiprocessing
 import os
 from concurrent.futures import ProcessPoolExecutor, ThreadPoolExecutor
 
-from .. import c15_memo, c15_run, graph, tlc
+from .. import c15_conc, c15_memo, c15_run, graph, tlc
 from ..core import Report
 
 ASSUMPTIONS = [
@@ -36,6 +36,10 @@ ASSUMPTIONS = [
     "a FIXED or explicit ratio is not required to follow the terminal; FIXED must equal the ratio of the cell "
     "size allowed at the moment it is set (fallback 1/2 when undetermined)",
     "the library state is reset between tours through its module globals and _invalidate_cache (seams)",
+    "toggles racing with get_cell_size() (TermCacheConc): judged at quiescence (every program finished), for one "
+    "toggle and one or two concurrent get_cell_size() calls at an unchanged terminal size; flag read / write, the "
+    "read of the lock global, acquire / release, get_terminal_size() and the TIOCGWINSZ ioctl are the steps; "
+    "termios / write_tty / read_tty of the loaded copy are stand-ins (canned XTWINOPS reply)",
     "Memo: invalidation concurrent with calls is explored for `cached` (invalidate takes the lock); for "
     "`terminal_size_cached` concurrent calls and resizes are explored, invalidation only sequentially "
     "(its `return cache[0]` after releasing the lock can raise TypeError if another thread invalidates in "
@@ -229,6 +233,17 @@ def _main(rep: Report, replay: dict | None) -> None:
             p, od = c15_run.launch(dict(src=src, scenario={"env": sc["env"], "ops": sc["ops"]}), "replay")
             r = c15_run.collect(p, od, timeout=300)
             validate_histories(rep, r["traces"], ["re-run"], selfcheck=False)
+        elif sc.get("kind") == "conc":
+            rep.traces_validated += 1
+            if sc.get("schedule"):
+                v, fl, ok = c15_conc.replay_schedule(sc["config"], sc["schedule"], sc["allowed"])
+                if not ok:
+                    rep.violation(f"conc:{sc['config']['prog'][0]}:QuiescentFresh:stale-after-toggle",
+                                  f"at quiescence get_cell_size() returns {v} with {fl}; allowed {sc['allowed']}", sc)
+            else:
+                r = c15_conc.replay_walk(sc["config"], sc["walk"], 0)
+                if r:
+                    rep.violation(f"conc:{sc['config']['prog'][0]}:QuiescentFresh:{r[1].what}", r[1].detail, sc)
         elif sc.get("kind") == "memo":
             r = c15_memo.replay_walk(sc["config"], sc["walk"], 0)
             rep.traces_validated += 1
@@ -248,6 +263,8 @@ def _main(rep: Report, replay: dict | None) -> None:
     with ProcessPoolExecutor(max_workers=2, mp_context=multiprocessing.get_context("spawn")) as pool, \
             ThreadPoolExecutor(max_workers=8) as tp:
         memo_f = [pool.submit(c15_memo.replay_model, dict(cfg=c)) for c in ("MC_Memo_cached.cfg", "MC_Memo_tsc.cfg")]
+        conc_f = [pool.submit(c15_conc.replay_model, dict(cfg=f"MC_TermCacheConc_{c}.cfg"))
+                  for c in ("swapon", "swapoff", "queries", "two")]
         edge_f = [
             tp.submit(edge_pipeline, cfg, src, rep.seed,
                       dict(seed=rep.seed * 977 + i, count=share, min_len=10, max_len=60 if quick else 120))
@@ -265,6 +282,8 @@ def _main(rep: Report, replay: dict | None) -> None:
                 for n in mc_names]
         var_f = {v: tp.submit(tlc.run, "MC_TermCache", c, workers=1, timeout=300, env={"VARIANT": v})
                  for v, (c, _) in VARIANTS.items()}
+        var_f["clearfirst"] = tp.submit(tlc.run, "MC_TermCacheConc", "MC_TermCacheConc_var.cfg", workers=1, timeout=300,
+                                        env={"VARIANT": "clearfirst"})
         var_f["outside"] = tp.submit(tlc.run, "MC_Memo", "MC_Memo_var.cfg", workers=1, timeout=300, env={"VARIANT": "outside"})
 
         for name, f in zip(mc_names, mc_f):
@@ -313,6 +332,45 @@ def _main(rep: Report, replay: dict | None) -> None:
                     f"[{out['cfg']}] {d['clause']} at step {d['idx']}: {d['detail']}\ninterleaving: {d['path']}",
                     {"kind": "memo", "config": out["config"], "walk": d["walk"]},
                 )
+
+        for f in conc_f:
+            out = f.result()
+            rep.states += out["distinct"]
+            rep.transitions += out["generated"]
+            if out["violated"]:
+                rep.violation(f"design:TermCacheConc:{out['cfg']}:{out['violated']}", out["error_text"][:1500],
+                              {"kind": "design", "cfg": out["cfg"]})
+                continue
+            toggle = out["config"]["prog"][0]
+            need = {"RF", "WF", "RL", "AQ", "REL", "ReadA", "AcqA", "ReadB", "AcqB", "TS", "IO", "FL", "RelB", "RelA"}
+            if "queries" in out["cfg"]:
+                need |= {"RQ"}
+            if not need <= set(out["acts"]) or not out["quiescent"]:
+                raise tlc.MachineryError(f"{out['cfg']}: vacuous (actions {sorted(need - set(out['acts']))}, "
+                                         f"quiescent walks {out['quiescent']})")
+            rep.traces_validated += out["walks"]
+            rep.evaluations += out["steps"]
+            rep.distinct.update((out["cfg"], i) for i in range(out["edges"]))
+            rep.extra.setdefault("conc_replay", {})[out["cfg"]] = {k: out[k] for k in ("distinct", "edges", "walks", "steps", "quiescent")}
+            if out.get("sample"):
+                rep.sample({"model": out["cfg"], "interleaving": out["sample"]})
+            for d in out["divergences"]:
+                st = d.get("stale")
+                if st:
+                    rep.violation(
+                        f"conc:{toggle}:QuiescentFresh:stale-after-toggle",
+                        f"[{out['cfg']}] {toggle} racing with get_cell_size(): with the schedule {st['schedule']} (thread 1 = "
+                        f"{toggle}, others = get_cell_size) every call has returned and get_cell_size() now returns "
+                        f"{st['value']} although the settings are {st['flags']}; allowed: {st['allowed']}.  The code also "
+                        f"departs from the specified statement order: {d['detail']}",
+                        {"kind": "conc", "config": out["config"], "schedule": st["schedule"], "allowed": st["allowed"]},
+                    )
+                else:
+                    rep.violation(
+                        f"conc:{toggle}:QuiescentFresh:{d['what']}",
+                        f"[{out['cfg']}] step {d['idx']}: {d['detail']}\ninterleaving: {d['path']}",
+                        {"kind": "conc", "config": out["config"], "walk": d["walk"]},
+                    )
 
     missing = sorted(a for a in ALL_ACTIONS if not cover.get(a))
     if missing:
